@@ -40,14 +40,16 @@ Definition mz_zoned_b (s : mz_conn) : bool :=
   match mz_cident s with Some None => false | _ => true end.
 
 (* verdict for one observed message: 0 = fine *)
-Definition mz_oracle_msg (t : mz_tree) (c : mz_cfg) (s : mz_conn) (m : mz_msg) (method : string) (o : mz_out) : nat :=
+Definition mz_oracle_core (t : mz_tree) (c : mz_cfg) (s : mz_conn) (m : mz_msg) (cls : option mz_class) (o : mz_out) : nat :=
   if mz_dropped o && (mz_applied o || mz_rlp o) then 4                    (* dropped as old, yet something happened *)
   else if mz_rlp o && negb (mz_is_some (mz_ep s)) then 5                  (* log position moved without endpoint *)
   else if negb (mz_applied o) then 0
-  else match mz_class_of method with
+  else match cls with
        | None => 1                                                        (* unclassified method had an effect *)
        | Some k =>
            if negb (mz_effectful k) then 3                                (* a handler specified as inert had an effect *)
            else if mz_placed_b t c m && mz_zoned_b s && negb (mz_entitled_b t c s m k) then 2   (* applied, not entitled *)
            else 0
        end.
+Definition mz_oracle_msg (t : mz_tree) (c : mz_cfg) (s : mz_conn) (m : mz_msg) (method : string) (o : mz_out) : nat :=
+  mz_oracle_core t c s m (mz_class_of method) o.
